@@ -567,6 +567,7 @@ def run(ctx):
     # scratch variables are part of the denoted semantics: the allocator must not alias them and the optimiser must not change them
     _c10.r10_1_assignment(ctx)
     _c03.r03_1_skip_set(ctx)
+    _c03.r03_1b_slot_classes(ctx)
     _c03.r03_2_dependency_scan(ctx)
     _c03.r03_3_cancellation(ctx)
     return (
